@@ -284,6 +284,25 @@ def opInt (t : CTy) : Op → Int → Int → Int
   | .LAND => fun a b => if a ≠ 0 ∧ b ≠ 0 then 1 else 0
   | .LOR => fun a b => if a ≠ 0 ∨ b ≠ 0 then 1 else 0
 
+/-- IEEE binary64 / binary32 operators (`double`, `float`).  Lean's `Float`/`Float32` are opaque to the
+logic: no theorem is stated about them — the generic definitions above (`allReduceOp`, `prefixSum`,
+`treeReduceL`) are simply *run* with these operators as the fold parameter, so that rounding, overflow and
+infinities are compared bit for bit.  `+` is not associative here: the MPI-delegated sum is compared against
+the rank-order left fold (what `mpiAllreduce`/`mpiExscan` say and simmpi does; MPI itself leaves the
+bracketing open), the tree sum against the tree's own nesting.  `LAND`/`LOR` are not defined by MPI on
+floating types and are never issued. -/
+def opF64 : Op → Float → Float → Float
+  | .SUM => fun a b => a + b
+  | .MIN => fun a b => if b < a then b else a
+  | .MAX => fun a b => if a < b then b else a
+  | .LAND | .LOR => fun a _ => a
+
+def opF32 : Op → Float32 → Float32 → Float32
+  | .SUM => fun a b => a + b
+  | .MIN => fun a b => if b < a then b else a
+  | .MAX => fun a b => if a < b then b else a
+  | .LAND | .LOR => fun a _ => a
+
 /-- non-associative, non-commutative merge used to pin the exact shape of the tree -/
 def parenMerge (a b : String) : String := "(" ++ a ++ "." ++ b ++ ")"
 
